@@ -4,7 +4,7 @@
    checks/c10.py).  Only final theorems here; proofs are in DnsWfProofs.v / DnsEmitProofs.v /
    DnsAnswerProofs.v. *)
 From Coq Require Import List NArith Arith Bool Lia.
-From Iodine Require Import Base Codec Hostname DnsName DnsMsg DnsWf DnsWfProofs DnsEmitProofs.
+From Iodine Require Import Base Codec Hostname DnsName DnsMsg DnsWf DnsWfProofs DnsEmitProofs DnsAnswerProofs.
 Import ListNotations.
 Local Open Scope N_scope.
 
@@ -43,6 +43,29 @@ Proof.
     repeat constructor; cbn; try lia; intros H; repeat (destruct H as [H|H]; [discriminate|]); exact H.
   - eexists. split; vm_compute; reflexivity.
 Qed.
+
+(* ---- C10_answer_wf: every answer write_dns emits ------------------------------------------ *)
+
+(* answer_ok q ls msg  :=  id = q_id, QR set, question = (ls, q_type, IN), no authority/additional,
+                           >= 1 answer, every answer: owner = ls (through the 0xC00C pointer),
+                           type = q_type (CNAME for an A question), class IN, rec_ok;
+   rec_ok r            :=  CNAME/MX/SRV: rdname parses, labels 1..57 bytes, <= 255 on the wire;
+                           TXT: RDATA non-empty and tiled by its length-prefixed strings.
+   (RDLENGTH = actual data size and the section counts are part of wf_msg's acceptance.) *)
+
+Theorem C10_answer_wf_partial : forall ls q p downenc td,
+  wf_labels ls -> ls <> [] -> q_name q = name_of ls -> q_id q < 65536 ->
+  (q_type q = T_NULL \/ q_type q = T_PRIVATE) ->
+  (length p <= 4098)%nat ->
+  exists m td' msg, write_dns q p downenc td = (Some m, td') /\ wf_msg m = Some msg /\ answer_ok q ls msg.
+Proof.
+  intros ls q p downenc td Hwf Hne Hn Hid Hty Hp.
+  destruct t_private_facts as [Hlt [Hop1 Hop2]].
+  apply answer_wf_opaque; try assumption.
+  - destruct Hty as [-> | ->]; [unfold T_NULL; lia|exact Hlt].
+  - destruct Hty as [-> | ->]; assumption.
+Qed.
+Print Assumptions C10_answer_wf_partial.
 
 (* ---- C10_spec_rejects: the specification parser is not vacuous ---------------------------- *)
 
